@@ -14,7 +14,10 @@ def fake_exponential(factor: int, numerator: int, denominator: int) -> int:
 def calc_excess_blob_gas(parent): max(0, parent.excess_blob_gas + parent.blob_gas_used - TARGET)
 ```
 The Python loop is written with a `fuel` (iterations allowed); `FakeExp f n d r` says the loop
-terminates with value `r` (Proofs: the value is unique, and the loop always terminates). -/
+terminates with value `r` (Proofs: the value is unique, and the loop always terminates).
+
+The implementation returns fixed-width integers, so the property compares it with the EIP value
+*clamped* to the return type: `min r (2^128 − 1)` and `min (max 0 (a+b−t)) (2^64 − 1)`. -/
 namespace Revm.Spec.Blob
 
 /-- the EIP loop; `none` = not finished within `fuel` iterations -/
@@ -32,32 +35,36 @@ def fakeExpFuel (fuel factor numerator denominator : Nat) : Option Nat :=
 def FakeExp (factor numerator denominator r : Nat) : Prop :=
   ∃ fuel, fakeExpFuel fuel factor numerator denominator = some r
 
-/-- every intermediate value computed by the EIP loop on the way (the running `output`, the product
-`accum * numerator`, the product `denominator * i`, the counter) is below `bound`.
-`true` when the loop does not finish within the fuel only if all values seen so far fit. -/
-def loopFits (bound : Nat) : (fuel i output accum numerator denominator : Nat) → Bool
-  | 0, _, _, _, _, _ => true
+/-- the EIP value clamped to `u128` -/
+def clamp128 (r : Nat) : Nat := min r (2^128 - 1)
+
+/-- An executable way to obtain `clamp128` of the EIP value without running the unbounded loop to
+its end (which takes about `e · numerator / denominator` iterations): `output` only grows, so as soon
+as `output ≥ 2^128 · denominator` the final quotient is at least 2^128. Still unbounded integers, no
+machine arithmetic. `Proofs.Blob.sat_eq_clamp` proves it equal to `clamp128 r`. This is the Spec
+column of the correspondence stream. -/
+def fakeExpSatLoop : (fuel i output accum numerator denominator : Nat) → Option Nat
+  | 0, _, _, _, _, _ => none
   | fuel+1, i, output, accum, numerator, denominator =>
-    if accum > 0 then
-      decide (output + accum < bound) && decide (accum * numerator < bound)
-        && decide (denominator * i < bound) && decide (i + 1 < bound)
-        && loopFits bound fuel (i + 1) (output + accum) (accum * numerator / (denominator * i)) numerator denominator
-    else true
+    if output ≥ 2^128 * denominator then some (2^128 - 1)
+    else if accum > 0 then
+      fakeExpSatLoop fuel (i + 1) (output + accum) (accum * numerator / (denominator * i)) numerator denominator
+    else some (output / denominator)
 
-/-- `NoIntermediateOverflow`: the unbounded computation terminates within `fuel` iterations and none
-of its intermediate values reaches 2^128. (Exact: the debug build panics iff this fails, see
-`Proofs.Blob.debug_ok_iff`.) -/
-def fitsFuel (fuel factor numerator denominator : Nat) : Bool :=
-  decide (factor * denominator < 2^128) && loopFits (2^128) fuel 1 0 (factor * denominator) numerator denominator
-
-def NoIntermediateOverflow (factor numerator denominator : Nat) : Prop :=
-  ∃ fuel, (fakeExpFuel fuel factor numerator denominator).isSome ∧ fitsFuel fuel factor numerator denominator = true
+def fakeExpSat (fuel factor numerator denominator : Nat) : Option Nat :=
+  fakeExpSatLoop fuel 1 0 (factor * denominator) numerator denominator
 
 /-- `max(0, excess + used − target)` over the integers -/
 def excessBlobGas (parentExcess parentUsed target : Nat) : Int :=
   max 0 ((parentExcess : Int) + (parentUsed : Int) - (target : Int))
 
+/-- the same clamped to `u64` -/
+def excessBlobGasClamped (parentExcess parentUsed target : Nat) : Int :=
+  min (excessBlobGas parentExcess parentUsed target) (2^64 - 1)
+
+def fraction (isPrague : Bool) : Nat := if isPrague then 5007716 else 3338477
+
 def blobGaspriceFuel (fuel excess : Nat) (isPrague : Bool) : Option Nat :=
-  fakeExpFuel fuel 1 excess (if isPrague then 5007716 else 3338477)
+  fakeExpFuel fuel 1 excess (fraction isPrague)
 
 end Revm.Spec.Blob
